@@ -3002,8 +3002,10 @@ class sptensor:
                 self.shape,
             )
         if isinstance(other, ttb.tensor):
+            if self.nnz == 0:  # nothing stored, the product is zero
+                return self.copy()
             csubs = self.subs
-            cvals = self.vals * other[csubs][:, None]
+            cvals = self.vals * np.atleast_1d(other[csubs])[:, None]
             return ttb.sptensor(csubs, cvals, self.shape)
         if isinstance(other, ttb.ktensor):
             csubs = self.subs
@@ -3381,8 +3383,10 @@ class sptensor:
             return ttb.sptensor(newsubs, newvals, self.shape)
 
         if isinstance(other, ttb.tensor):
+            if self.nnz == 0:  # nothing stored
+                return self.copy()
             csubs = self.subs
-            cvals = self.vals / other[csubs][:, None]
+            cvals = self.vals / np.atleast_1d(other[csubs])[:, None]
             return ttb.sptensor(csubs, cvals, self.shape)
         if isinstance(other, ttb.ktensor):
             # TODO consider removing epsilon and generating nans consistent with above
